@@ -27,12 +27,17 @@ class GoExit(Exception):
         self.code = code
 
 
+_STAMP = [0]
+
+
 class Cell:
-    __slots__ = ('v', 'tag')
+    __slots__ = ('v', 'tag', 'stamp')
 
     def __init__(self, v, tag=None):
         self.v = v
         self.tag = tag
+        _STAMP[0] += 1
+        self.stamp = _STAMP[0]
 
 
 class Ptr:
@@ -101,9 +106,85 @@ class Builtin:
         self.name = name
 
 
+class SymName:
+    """identifier text that ranges over a pool of concrete names: supports equality (decided by the
+    solver) and map-key use; any other use concretises it through the path controller (force)"""
+    __slots__ = ('term', 'allowed', 'table')
+
+    def __init__(self, term, allowed, table):
+        self.term, self.allowed, self.table = term, allowed, table
+
+    def eq(self, other):
+        """True / False / z3 Bool"""
+        if isinstance(other, SymName):
+            if other is self:
+                return True
+            c = z3.simplify(self.term == other.term)
+        elif isinstance(other, str):
+            i = self.table.index.get(other)
+            if i is None or i not in self.allowed:
+                return False
+            c = z3.simplify(self.term == i)
+        else:
+            return False
+        if z3.is_true(c):
+            return True
+        if z3.is_false(c):
+            return False
+        return c
+
+    def force(self, M):
+        conds = [self.term == i for i in self.allowed]
+        k = M.ctl.choose(conds)
+        return self.table.names[self.allowed[k]]
+
+    def __repr__(self):
+        return 'SymName(%s)' % self.term
+
+
+class SymRope:
+    """string built from concrete pieces and symbolic names; only stored / concatenated / printed, never inspected"""
+    __slots__ = ('parts',)
+
+    def __init__(self, parts):
+        self.parts = parts
+
+    def force(self, M):
+        return ''.join(p.force(M) if isinstance(p, (SymName, SymRope)) else p for p in self.parts)
+
+    def __repr__(self):
+        return 'SymRope(%r)' % (self.parts,)
+
+
+class NameTable:
+    def __init__(self):
+        self.names = []
+        self.index = {}
+
+    def intern(self, s):
+        i = self.index.get(s)
+        if i is None:
+            i = self.index[s] = len(self.names)
+            self.names.append(s)
+        return i
+
+
+def str_eq(a, b):
+    if isinstance(a, SymName):
+        return a.eq(b)
+    if isinstance(b, SymName):
+        return b.eq(a)
+    return a == b
+
+
 class GoMap:
     def __init__(self):
-        self.d = {}      # keyof(k) -> [k, v]
+        self.d = {}      # keyof(k) -> [k, v]   (insertion ordered; symbolic keys are keyed by identity)
+        _STAMP[0] += 1
+        self.stamp = _STAMP[0]
+
+    def has_sym(self):
+        return any(isinstance(e[0], SymName) for e in self.d.values())
 
     def get(self, k):
         e = self.d.get(keyof(k))
@@ -119,6 +200,33 @@ class GoMap:
 
     def delete(self, k):
         self.d.pop(keyof(k), None)
+
+    def sym_find(self, M, k):
+        """entry whose key equals k, deciding symbolic equalities through the path controller; None if absent"""
+        entries = list(self.d.values())
+        conds = []
+        cands = []
+        for e in entries:
+            c = str_eq(k, e[0]) if isinstance(k, (SymName, str)) and isinstance(e[0], (SymName, str)) else (keyof(k) == keyof(e[0]))
+            if c is True:
+                if not conds:
+                    return e
+                conds.append(z3.BoolVal(True))
+                cands.append(e)
+                break
+            if c is False:
+                continue
+            conds.append(c)
+            cands.append(e)
+        if not conds:
+            return None
+        excl, prev = [], []
+        for c in conds:
+            excl.append(z3.And([c] + [z3.Not(p) for p in prev]))
+            prev.append(c)
+        excl.append(z3.And([z3.Not(p) for p in prev]))
+        i = M.ctl.choose(excl)
+        return cands[i] if i < len(cands) else None
 
 
 class MapIter:
@@ -142,6 +250,8 @@ def keyof(v):
         return ('I', v.t, keyof(v.v))
     if isinstance(v, Ptr):
         return ('P', id(v.cell), v.path)
+    if isinstance(v, SymName):
+        return ('S', id(v))
     if isinstance(v, tuple):
         return tuple(keyof(x) for x in v)
     if is_sym(v):
@@ -303,6 +413,8 @@ class Machine:
         self.stdout = []
         self.map_order_hook = None
         self.init_allow = set()
+        self.mut_hook = None
+        self.names = NameTable()
         self.store_hook = None
         self.env = {}
 
@@ -457,6 +569,9 @@ class Machine:
             try:
                 return self.exec_blocks(fr, 0)
             except GoPanic as gp:
+                if getattr(gp, 'fn', None) is None:
+                    gp.fn = fn['id']
+                    gp.stack = [f.fn['id'] for f in self.frames[-6:]]
                 if not fr.defers:
                     raise
                 fr.panicking = gp
@@ -592,6 +707,23 @@ class Machine:
         return z3.BitVecVal(v & ((1 << bits) - 1), bits)
 
     def binop(self, o, x, y, tid, ins):
+        if isinstance(x, SymName) or isinstance(y, SymName):
+            if o in ('==', '!='):
+                c = str_eq(x, y)
+                if isinstance(c, bool):
+                    return c if o == '==' else not c
+                return c if o == '==' else z3.Not(c)
+            if o == '+':
+                return SymRope([x, y])
+            x = x.force(self) if isinstance(x, SymName) else x
+            y = y.force(self) if isinstance(y, SymName) else y
+        if isinstance(x, SymRope) or isinstance(y, SymRope):
+            if o == '+':
+                return SymRope([x, y])
+            x = x.force(self) if isinstance(x, SymRope) else x
+            y = y.force(self) if isinstance(y, SymRope) else y
+            if isinstance(x, SymName) or isinstance(y, SymName):
+                return self.binop(o, x, y, tid, ins)
         if is_sym(x) or is_sym(y):
             return self.sym_binop(o, x, y, tid, ins)
         if o == '==':
@@ -739,6 +871,8 @@ class Machine:
             raise Unsupported('IndexAddr on %r' % type(x))
         if op == 'Index':
             x = val(fr, A[0])
+            if isinstance(x, SymName):
+                x = x.force(self)
             i = self.cint(val(fr, A[1]))
             if isinstance(x, str):
                 if i < 0 or i >= len(x):
@@ -750,6 +884,8 @@ class Machine:
         if op == 'Lookup':
             x = val(fr, A[0])
             k = val(fr, A[1])
+            if isinstance(x, SymName):
+                x = x.force(self)
             if isinstance(x, str):
                 i = self.cint(k)
                 if i < 0 or i >= len(x):
@@ -760,7 +896,15 @@ class Machine:
             m = val(fr, A[0])
             if m is None:
                 raise GoPanic('nil-map', 'assignment to entry in nil map', pos)
-            m.set(val(fr, A[1]), cp(val(fr, A[2])))
+            k = val(fr, A[1])
+            if self.mut_hook is not None:
+                self.mut_hook(self, 'map', m, pos)
+            if isinstance(k, SymName) or (isinstance(k, str) and m.has_sym()):
+                e = m.sym_find(self, k)
+                if e is not None:
+                    e[1] = cp(val(fr, A[2]))
+                    return None
+            m.set(k, cp(val(fr, A[2])))
             return None
         if op == 'MakeMap':
             return GoMap()
@@ -787,6 +931,8 @@ class Machine:
             return self.slice_op(fr, ins, A, pos)
         if op == 'Range':
             x = val(fr, A[0])
+            if isinstance(x, SymName):
+                x = x.force(self)
             if isinstance(x, str):
                 return StrIter(x)
             if x is None:
@@ -839,6 +985,11 @@ class Machine:
         zero = self.p.zero(ins['t']) if not commaok else self.p.zero(self.p.T[ins['t']]['tuple'][0])
         if m is None:
             return (zero, False) if commaok else zero
+        if isinstance(k, SymName) or (isinstance(k, str) and m.has_sym()):
+            e = m.sym_find(self, k)
+            if e is None:
+                return (zero, False) if commaok else zero
+            return (cp(e[1]), True) if commaok else cp(e[1])
         if hasattr(k, 'sym_eq'):
             entries = list(m.d.values())
             conds = []
@@ -899,6 +1050,8 @@ class Machine:
 
     def slice_op(self, fr, ins, A, pos):
         x = self.val(fr, A[0])
+        if isinstance(x, SymName):
+            x = x.force(self)
         lo = self.val(fr, A[1]) if A[1]['k'] != 'none' else None
         hi = self.val(fr, A[2]) if A[2]['k'] != 'none' else None
         mx = self.val(fr, A[3]) if len(A) > 3 and A[3]['k'] != 'none' else None
@@ -932,6 +1085,10 @@ class Machine:
 
     def convert(self, x, ft, tt, pos):
         p = self.p
+        if isinstance(x, SymName):
+            if p.kind(tt) == 'basic':
+                return x
+            x = x.force(self)
         fu, tu = p.under(ft), p.under(tt)
         fk, tk = fu['kind'], tu['kind']
         if fk == 'basic' and tk == 'basic':
@@ -1001,6 +1158,8 @@ class Machine:
         pos = ins.get('pos', '')
         if name == 'len':
             x = args[0]
+            if isinstance(x, SymName):
+                x = x.force(self)
             if x is None:
                 return 0
             if isinstance(x, str):
@@ -1035,6 +1194,8 @@ class Machine:
             if a is None:
                 return self.mkslice(eb)
             if a.len + len(eb) <= a.cap:
+                if self.mut_hook is not None:
+                    self.mut_hook(self, 'append', a.cell, pos)
                 # in-place (aliasing semantics of Go)
                 a.cell.v[a.off + a.len:a.off + a.len + len(eb)] = eb
                 return Slice(a.cell, a.off, a.len + len(eb), a.cap)
